@@ -648,8 +648,8 @@ func runCase(c keyCfg, t sigType, hash crypto.Hash, via pathKind, tmp string, ve
 		return false
 	}
 	obs, xerr := extract(t.Extract, artifact, content)
-	if xerr != nil {
-		harnessError("%s: artifact emitted but the harness cannot read it: %v", label, xerr)
+	if xerr != nil && !unreadable(xerr) {
+		harnessError("%s: artifact emitted but the harness cannot open it: %v", label, xerr)
 		return true
 	}
 	clean := true
@@ -661,6 +661,20 @@ func runCase(c keyCfg, t sigType, hash crypto.Hash, via pathKind, tmp string, ve
 			return
 		}
 		run.Violation(key, label+": "+desc, replay())
+	}
+	if xerr != nil {
+		// success reported, artifact written, and no signature in it that the independent reader
+		// can parse: not "error", and not "leaf first and the value verifying under it" either
+		viol(t.ID+":emitted-artifact-without-readable-signature:"+class, fmt.Sprintf("relic reported success and wrote an artifact in which the independent reader finds no signature it can parse (%v)", xerr))
+		run.Outcome(fmt.Sprintf("%s:%s:violation", t.Cert, class))
+		if verbose {
+			fmt.Println(label, "ARTIFACT UNREADABLE", xerr)
+			for _, s := range res.Problems {
+				fmt.Println("    VIOLATION", s)
+			}
+		}
+		sample()
+		return true
 	}
 	for _, o := range obs {
 		res.Obs = append(res.Obs, describe(o))
@@ -1071,7 +1085,7 @@ func finish(cfgs []keyCfg, types []sigType, nwork int) {
 		"hashes":                         map[bool][]string{false: {"sha256"}, true: {"sha256", "sha1", "sha384", "sha512"}}[run.Thorough()],
 		"paths":                          map[bool][]string{false: {"standalone", "worker-rpc (10 rotation scenarios)", "token-stack and server-handler under concurrent requests", "server-handler and token-stack over environment histories"}, true: {"standalone", "worker-rpc (10 rotation scenarios)", "server-handler (non-PKCS#12 configurations, sha256)", "token-stack and server-handler under concurrent requests", "server-handler and token-stack over environment histories"}}[run.Thorough()],
 	})
-	run.Rule("full product key configuration x signature type (thorough: x digest in {sha256,sha1,sha384,sha512}, plus the server-handler path with sha256): private key in {rsaA,rsaB,p256A,p256B,p384}; X.509 source in {leaf file, chain leaf-first, leaf-last, root-first, +unrelated root, +other leaf last/first, PKCS#7 bundle (PEM/DER/leaf-only/leaf-last, made by openssl), PKCS#12 (matching / key A leaf B / chain root-first / overridden by a file), certificate stored in the token (matching / other / leaf-last / stale), file of another key (same type, same curve other point, other curve, other algorithm), none, alias}; OpenPGP source in {matching, other key, other key type, two-entity keyrings binary/one armor/two armors in both orders, none}; token lookup in {requested key, a different key (same type / other type) for the requested name}; worker-RPC path (relic's worker client -> worker handler -> token cache -> scripted token, as used for pkcs11 tokens) with the key under the requested name {stable, replaced after the caller's lookup while the worker's cache entry is live / has expired, token honouring the caller's key id, token without key ids}. OpenPGP certificate structures (generated from the RSA fixture keys, read back packet by packet): primary + {one signing subkey (both role assignments), one encryption-only subkey, two signing subkeys in both orders, encryption subkey + signing subkey, one revoked signing subkey} x token key in {rsaA, rsaB, a third RSA key, p256A} = the primary / the n-th subkey / none of the certificate's keys, x every OpenPGP signature type {deb, rpm, pgp detached, detached armor+text, clearsign, inline}: error, or every signature packet names (issuer key id, issuer fingerprint) the key packet that is the token's key and verifies under exactly that key packet. Key names: a configuration FILE (loaded with config.ReadFile) with two keys (second one direct or an alias of a third entry) whose names are {distinct control, equal up to ASCII case (initial / all), equal up to a leading / trailing space / trailing tab, case + blanks, Unicode case folding} x key material {rsaA+rsaB, p256A+p256B} x request in {name A, name B, an alias of A, an alias of B, an unconfigured name that normalises to both} x {standalone, server handler} x signature type (quick: ps, appmanifest, apk v2, xar, rpm, pgp clearsign; thorough: all): error, or leaf / key / OpenPGP issuer of every signature = those configured under exactly the requested name (unconfigured name: only self-consistency is judged). Separately: relic's signature builders called directly (pkcs7.SignatureBuilder with/without signed attributes, xmldsig.Sign, xmldsig.SignEnveloping, each XML builder under 4 KeyInfo option sets) x 5 private keys x 7 certificate lists. Leaf KEY ALGORITHMS: one leaf certificate per public-key algorithm a certificate can carry (fixtures/keys/leafalgs, made by openssl over fresh unrelated keys: rsaEncryption, id-RSASSA-PSS without and with parameters, id-dsa, id-ecPublicKey on P-224/P-256/P-384/P-521, Ed25519, Ed448, X25519, X448, ML-DSA-44), (i) handed to every builder directly: signer in {the 5 fixture keys, the leafalgs keys Go can sign with: RSA, P-224, P-256, P-384, P-521, Ed25519} x every such leaf x {leaf + intermediate, leaf alone, leaf followed by the signer's own leaf}: refusal unless leaf and signer are the same fixture (then: refusal, or leaf first and the signature verifying under it), (ii) as the configured certificate file (chain) of key file rsaA / p256A x every X.509 signature type through the pipeline. CONCURRENT requests for different key names: 2-3 threads, each requesting a key name of its own / the same name / an alias (3 keys + 1 alias on one scripted token), through ONE instance of the server's token stack (tokencache.New(tokencache.Metrics{token}), standalone pipeline) or ONE server handler, with the cache entries cold / live / expired / caching off, x {ps (X.509), pgp detached (OpenPGP)}; every interleaving up to 2 (thorough 3) preemptions of the threads at the token's operations (lookup, sign) and the key cache's lock operations (sync rewritten to verif/shim/vsync), threads parked on unhooked primitives followed by the scheduler's monitor: every request ends in an error or an artifact whose leaf / OpenPGP issuer is the one configured under the requested name and verifies the signature value. SAME-SUBJECT certificate files x VALIDITY (fixtures/keys/renewals, rewritten byte-identically by cmd/certgen/renewals): key file A of pair {rsaA/rsaB, p256A/p256B}; certificate file = first leaf P (key A, validity in {expired, valid, not yet valid at the clock of the run}) + companion Q with the SAME subject in {none, another certificate of key A, a certificate of key B (re-keyed renewal)} x validity of Q in {expired, valid, not yet valid} x position of Q in {right after P, after the CA certificates, before P}, then intermediate and root = 114 files x every X.509 signature type: error, or the embedded leaf is one of the file's certificates OF KEY A, is listed first and verifies the signature value. ENVIRONMENT HISTORIES on one long-lived process: request, environment step, request, ... with all requests of a history for one key name and signature type through ONE server handler (file token behind the server's key cache) or ONE token stack (tokencache.New(tokencache.Metrics{file token}), standalone pipeline; PKCS#12 key files); environment step = full product key file in {untouched, fresh copy of the same key, the other key of the pair} x certificate files (x509certificate and pgpcertificate together; PKCS#12: inside the key file) in {untouched, fresh copy, the other key's} x key-cache entry in {live, expired on the virtual clock} = 18 steps (PKCS#12: 6); files replaced by rename of a new file over the old one or by rewriting in place (one method per history), modification time moved on by one hour with every write; pairs {rsaA<->rsaB, p256A<->p256B}; quick: every signature type x every 1-step history x both methods and, for one type per signature mechanism (ps, appmanifest, apk v2, xar, cosign, rpm, pgp clearsign), every 2-step history (rename); thorough: every type x every 2-step history x both methods x {server handler, token stack} and every 3-step history for the one-per-mechanism types; every request: error, or every signature value verifies under its embedded leaf / named OpenPGP issuer, the leaf is listed first and is a certificate that was configured at some moment of the history so far. distinct_nontrivial = cases whose configuration is inconsistent, order-variant, certificate-less, token-based or uses a certificate source other than the plain chain/PGP file")
+	run.Rule("full product key configuration x signature type (thorough: x digest in {sha256,sha1,sha384,sha512}, plus the server-handler path with sha256): private key in {rsaA,rsaB,p256A,p256B,p384}; X.509 source in {leaf file, chain leaf-first, leaf-last, root-first, +unrelated root, +other leaf last/first, PKCS#7 bundle (PEM/DER/leaf-only/leaf-last, made by openssl), PKCS#12 (matching / key A leaf B / chain root-first / overridden by a file), certificate stored in the token (matching / other / leaf-last / stale), file of another key (same type, same curve other point, other curve, other algorithm), none, alias}; OpenPGP source in {matching, other key, other key type, two-entity keyrings binary/one armor/two armors in both orders, none}; token lookup in {requested key, a different key (same type / other type) for the requested name}; worker-RPC path (relic's worker client -> worker handler -> token cache -> scripted token, as used for pkcs11 tokens) with the key under the requested name {stable, replaced after the caller's lookup while the worker's cache entry is live / has expired, token honouring the caller's key id, token without key ids}. OpenPGP certificate structures (generated from the RSA fixture keys, read back packet by packet): primary + {one signing subkey (both role assignments), one encryption-only subkey, two signing subkeys in both orders, encryption subkey + signing subkey, one revoked signing subkey} x token key in {rsaA, rsaB, a third RSA key, p256A} = the primary / the n-th subkey / none of the certificate's keys, x every OpenPGP signature type {deb, rpm, pgp detached, detached armor+text, clearsign, inline}: error, or every signature packet names (issuer key id, issuer fingerprint) the key packet that is the token's key and verifies under exactly that key packet. Key names: a configuration FILE (loaded with config.ReadFile) with two keys (second one direct or an alias of a third entry) whose names are {distinct control, equal up to ASCII case (initial / all), equal up to a leading / trailing space / trailing tab, case + blanks, Unicode case folding} x key material {rsaA+rsaB, p256A+p256B} x request in {name A, name B, an alias of A, an alias of B, an unconfigured name that normalises to both} x {standalone, server handler} x signature type (quick: ps, appmanifest, apk v2, xar, rpm, pgp clearsign; thorough: all): error, or leaf / key / OpenPGP issuer of every signature = those configured under exactly the requested name (unconfigured name: only self-consistency is judged). Separately: relic's signature builders called directly (pkcs7.SignatureBuilder with/without signed attributes, xmldsig.Sign, xmldsig.SignEnveloping, each XML builder under 4 KeyInfo option sets) x 5 private keys x 7 certificate lists. Leaf KEY ALGORITHMS: one leaf certificate per public-key algorithm a certificate can carry (fixtures/keys/leafalgs, made by openssl over fresh unrelated keys: rsaEncryption, id-RSASSA-PSS without and with parameters, id-dsa, id-ecPublicKey on P-224/P-256/P-384/P-521, Ed25519, Ed448, X25519, X448, ML-DSA-44), (i) handed to every builder directly: signer in {the 5 fixture keys, the leafalgs keys Go can sign with: RSA, P-224, P-256, P-384, P-521, Ed25519} x every such leaf x {leaf + intermediate, leaf alone, leaf followed by the signer's own leaf}: refusal unless leaf and signer are the same fixture (then: refusal, or leaf first and the signature verifying under it), (ii) as the configured certificate file (chain) of key file rsaA / p256A x every X.509 signature type through the pipeline. CONCURRENT requests for different key names: 2-3 threads, each requesting a key name of its own / the same name / an alias (3 keys + 1 alias on one scripted token), through ONE instance of the server's token stack (tokencache.New(tokencache.Metrics{token}), standalone pipeline) or ONE server handler, with the cache entries cold / live / expired / caching off, x {ps (X.509), pgp detached (OpenPGP)}; every interleaving up to 2 (thorough 3) preemptions of the threads at the token's operations (lookup, sign) and the key cache's lock operations (sync rewritten to verif/shim/vsync), threads parked on unhooked primitives followed by the scheduler's monitor: every request ends in an error or an artifact whose leaf / OpenPGP issuer is the one configured under the requested name and verifies the signature value. SAME-SUBJECT certificate files x VALIDITY (fixtures/keys/renewals, rewritten byte-identically by cmd/certgen/renewals): key file A of pair {rsaA/rsaB, p256A/p256B}; certificate file = first leaf P (key A, validity in {expired, valid, not yet valid at the clock of the run}) + companion Q with the SAME subject in {none, another certificate of key A, a certificate of key B (re-keyed renewal)} x validity of Q in {expired, valid, not yet valid} x position of Q in {right after P, after the CA certificates, before P}, then intermediate and root = 114 files x every X.509 signature type: error, or the embedded leaf is one of the file's certificates OF KEY A, is listed first and verifies the signature value. ENVIRONMENT HISTORIES on one long-lived process: request, environment step, request, ... with all requests of a history for one key name and signature type through ONE server handler (file token behind the server's key cache) or ONE token stack (tokencache.New(tokencache.Metrics{file token}), standalone pipeline; PKCS#12 key files); environment step = full product key file in {untouched, fresh copy of the same key, the other key of the pair} x certificate files (x509certificate and pgpcertificate together; PKCS#12: inside the key file) in {untouched, fresh copy, the other key's} x key-cache entry in {live, expired on the virtual clock} = 18 steps (PKCS#12: 6); files replaced by rename of a new file over the old one or by rewriting in place (one method per history), modification time moved on by one hour with every write; pairs {rsaA<->rsaB, p256A<->p256B}; quick: every signature type x every 1-step history x both methods and, for one type per signature mechanism (ps, appmanifest, apk v2, xar, cosign, rpm, pgp clearsign), every 2-step history (rename); thorough: every type x every 2-step history x both methods x {server handler, token stack} and every 3-step history for the one-per-mechanism types; every request: error, or every signature value verifies under its embedded leaf / named OpenPGP issuer, the leaf is listed first and is a certificate that was configured at some moment of the history so far. VERDICT of every request in every family above: a request that reports success must leave an artifact in which the independent reader finds, at the place the format prescribes, every signature the artifact announces, and each of them is judged on its own (xar: every <signature style=RSA> and <x-signature style=CMS> element of the TOC: offset/size inside the heap, KeyInfo X509Certificate list beginning with the leaf, classic RSA value over the TOC checksum verifying under the FIRST listed certificate, SignedData readable in its reservation (trailing octets of the reservation ignored) and verifying under its signer certificate, which must be the first KeyInfo certificate); an artifact in which no signature can be read (key <type>:emitted-artifact-without-readable-signature) or whose TOC announces a signature that is not at the announced place (xar:<part>:toc-signature-region-holds-no-readable-signature) is a violation of its own, not a harness error: it is neither a refusal nor a signature verifying under its leaf (mixed-algorithm chains are part of the product: the fixture chains are RSA or EC leaf <- EC intermediate <- RSA root, so every bundle order also varies the key algorithm of the first listed certificate against that of the signing key, which is what decides whether xar reserves / writes a classic RSA signature). distinct_nontrivial = cases whose configuration is inconsistent, order-variant, certificate-less, token-based or uses a certificate source other than the plain chain/PGP file")
 	run.Assume("canonical bytes of XML-DSig SignedInfo are taken from relic's xmldsig.SerializeCanonical (canonicalisation is C19's subject); digest and RSA/ECDSA verification over them are the harness's (Go crypto)")
 	run.Assume("OpenPGP packets are read and hashed with ProtonMail go-crypto's packet layer (PublicKey.VerifySignature), not with relic's pgptools; the key an OpenPGP signature 'embeds' is the issuer it names (issuer key id subpacket, else issuer fingerprint; when both are present they must name one key); it is verified under exactly that key packet, primary or subkey, without applying any usage-flag, revocation or key-selection policy; inline messages are read packet by packet (compressed / one-pass / literal / signature)")
 	run.Assume("whether relic accepts a token key that is a SUBKEY of the configured OpenPGP certificate is not judged (the unchanged tree refuses it): only that an emitted signature names and verifies under the token's key. A requested key name that is not configured but equals a configured one after case folding / trimming may be refused or served: only self-consistency of the artifact is judged")
